@@ -31,20 +31,20 @@ claim('C02', 'sibling comparison of entry points over resolved MIR (parameter-us
       'Decides structural necessary clauses: gradual constructor and one-shot calculation of each mode start from the same converted '
       'and preprocessed map (same convert_ref(mode, mods), same &mut Beatmap preprocessors and direct map writes under the same guards); both consult the '
       'same Difficulty settings; gradual count state is written only by its delta function / table; no (x/rate)*rate round trip feeds a truncation; a mode '
-      'whose skills read a forward neighbour does not cut the one-shot object list at passed_objects. Equality of values per prefix is numeric and not decided.',
+      'whose skills read a forward neighbour does not cut the one-shot object list at passed_objects; (catch) the counting mode handed into the shared conversion is write-only there and same-named counters of the regular and the gradual count agree in width and update. Equality of values per prefix is numeric and not decided.',
       'exported MIR + resolved call graph; helper following bounded at depth 3', 'DESIGN.md §5 C02')
 claim('C07', 'sibling decision-tree comparison, arm summaries of GameMode switches, parameter-use classification, provenance of forwarded fields',
       'Decides the dispatch/conversion shape for all entry points, arms and paths: convert_ref/convert_mut path sets equal, '
       'convert()=convert_mut(self); all 16 IGameMode entries convert first with own mode + Difficulty mods; every GameMode arm '
       'in the crate names only its own mode; sibling entries preprocess alike; TryFrom<OsuPerformance> forwards per table; '
-      'try_convert_map pairs Borrowed/convert_ref and Owned/convert_mut. Numerical equality follows but is not computed.',
+      'try_convert_map pairs Borrowed/convert_ref and Owned/convert_mut; every converter call inside the crate takes the caller\'s mods, never a constant. Numerical equality follows but is not computed.',
       'exported MIR; GameMode has exactly four variants; forwarding table for TryFrom confirmed by reading', 'DESIGN.md §5 C07')
 
 claim('C05', 'loop classification over MIR natural loops (float-accumulator absorption rule) + may-live guard dataflow with call-graph summaries',
       'Decides two clauses for every loop and every guard site of the crate: float-only-exit loops cannot stall (f32 additive '
       'accumulators need a progress guard; shrink loops need an integer-derived start), and no RefCount guard conflict exists '
       '(RefCell panic); the asserted mania column search over the whole range excluding only prev_pattern is called only where a free column is '
-      'established. A loop that stalls only above 2^24*step ms is unreachable for the fixture maps. All other panic/hang corners '
+      'established; every clamp(lo, hi) with a non-constant bound has lo <= hi established (dominating comparison, shifted copies of one value, or a non-negative-by-construction upper bound). A loop that stalls only above 2^24*step ms is unreachable for the fixture maps. All other panic/hang corners '
       'are numeric and not decided.',
       'IEEE-754 absorption argument; f64 accumulators accepted under the decoder magnitude bound; one frozen guard exception '
       '(find_repetition_interval, acyclic prev chain)', 'DESIGN.md §5 C05')
@@ -59,12 +59,12 @@ claim('C10', 'per-configuration type check + configuration-independent body fing
       'Decides the structural part: all four feature combinations build; every body that differs between configurations lies inside '
       'util::strains_vec / util::sync (a cfg(feature)/cfg!(feature) elsewhere shows up as a differing fingerprint of the resolved '
       'program, not as a grep hit); guard discipline is identical and conflict-free under RefCell and RwLock; both push bodies normalise alike and record one '
-      'section per call; sum / iter / into_vec of both bodies traverse the whole list. The default-feature suite '
+      'section per call; sum / iter / into_vec of both bodies traverse the whole list; nobody asks len()/iter() after a shrink that leaves the compact body\'s separate count stale. The default-feature suite '
       'never compiles the other three configurations. Numerical equivalence of the two StrainsVec bodies is NOT decided.',
       'cargo +nightly check per configuration; fingerprint ignores local types and generic arguments by design', 'DESIGN.md §5 C10')
 claim('C11', 'unsafe-operation inventory from MIR with one obligation rule per kind: typestate dataflow, dominating-guard facts, who-may-write index, call-graph reachability, provenance',
       'Every unsafe operation in user-written unsafe code (17 in the default build) is matched to a rule and the obligation is checked at the '
-      'site on all paths; unknown kinds are reported. Two obligations (count<=len in copy_slice, Vec<StrainsEntry>~Vec<f64> layout) are '
+      'site on all paths; unknown kinds are reported; every borrow source of a lifetime-extended value lives in the same struct. Two obligations (count<=len in copy_slice, Vec<StrainsEntry>~Vec<f64> layout) are '
       'recorded as assumed, which is why the level is `other` and not proof. Miri-style tests only see executed paths; these rules '
       'quantify over all paths, callers and configurations.',
       'Safety contracts as written in the source; Rust aliasing model; compiler-generated unsafe is trusted', 'DESIGN.md §5 C11')
@@ -88,20 +88,21 @@ claim('C06', 'call-graph-scoped decoder discipline: bounded-parse dominance, cla
 claim('C08', 'arm summaries of representation matches with identifiers resolved against rosu-mods\' own constant table; who-may-call / who-may-read',
       'Decides that the three mod representations answer alike arm by arm (14 has-mod accessors, 29 key-mod rows, HardRock reflection; legacy `false` allowed '
       'iff GameModsLegacy has no such flag), that no accessor lets the iteration order of the mod collection decide between mutually exclusive mod '
-      'families (rate mods, HR/EZ), and that mod-derived clock rate / attribute values are reachable only through the override-aware getters. '
+      'families (rate mods, HR/EZ), that mod-derived clock rate / attribute values are reachable only through the override-aware getters, and that every attribute-builder chain a calculator drives to build()/hit_windows() goes through .difficulty(..) with no setting setter before it. '
       'Numerical equality and lazer per-mod settings are not decided.', 'rosu-mods 0.3.1 semantics of contains/contains_intermode', 'DESIGN.md §5 C08')
 claim('C14', 'provenance of is_convert in every attribute construction (interprocedural through helpers) + who-may-write on Beatmap.is_convert',
-      'Decides only the is_convert clause: attributes report exactly the converted map\'s flag and only the converters set it (each with its own mode). '
-      'All counting clauses are arithmetic over runtime values and not decided.', 'exported MIR', 'DESIGN.md §5 C14')
+      'Decides the is_convert clause (attributes report exactly the converted map\'s flag and only the converters set it, each with its own mode) and three counting-shape clauses: osu! kinds '
+      'are counted by exactly one counter each and alike in both paths, passed_objects(n) records and returns n, mania hold notes are counted by object kind alone (path by path). '
+      'All other counting clauses are arithmetic over runtime values and not decided.', 'exported MIR', 'DESIGN.md §5 C14')
 claim('C15', 'delegation shape check (single call, parameter pass-through, constants) and arm summaries of the enum wrappers',
       'Decides the delegation clauses: next = nth(0), last = nth(usize::MAX), len = inner len, 24 wrapper arms forward to the same-named payload method '
       'and re-wrap in their own variant, size_hint = (len, Some(len)); len() consults every collection whose emptiness ends next() and measures the collection '
-      'that terminates it; nth past the end is a guarded None; the caller\'s n enters overflow-capable arithmetic only after being bounded. '
+      'that terminates it; nth past the end is a guarded None; the caller\'s n enters overflow-capable arithmetic only after being bounded; the bulk step of nth() feeds the same skills as next() under the same conditions. '
       'nth(n) = n+1 nexts is not decided. One known finding (taiko len/next mismatch on tiny maps).', 'exported MIR', 'DESIGN.md §5 C15')
 claim('C16', 'evaluated associated constants at use sites (loop step of the section accumulator), provenance of exported peaks, sibling preprocessing rule',
       'Decides: the section length each of the 9 skills really advances by equals its mode\'s published SECTION_LEN (inherent shadowing resolved by rustc, '
       'not by name); export and aggregation both close the open section through get_current_strain_peaks; strains() runs the same '
-      'DifficultyValues::calculate on the same preprocessed map as difficulty(). Finiteness and the numeric re-aggregation identity are not decided.',
+      'DifficultyValues::calculate on the same preprocessed map as difficulty(); the section operations of every process() depend on object times and the section end only, never on the skill\'s own strain state. Finiteness and the numeric re-aggregation identity are not decided.',
       'exported MIR + const evaluation', 'DESIGN.md §5 C16')
 claim('C17', 'provenance from builder output to calculator fields; setter/getter/output slot triangle by read-set of self fields',
       'Decides the flow clauses: build() embeds hit_windows(); calculators copy AR/HP/hit windows from the builder configured with the converted map and '
@@ -111,11 +112,11 @@ claim('C17', 'provenance from builder output to calculator fields; setter/getter
 claim('C18', 'struct-delta provenance of setters, arm summaries of 92 dispatch arms against tcx method tables, doc-table parsing, field-map comparison',
       'Decides: all 31 mode setters forward their own parameters to the same-named Difficulty setter; every Performance enum arm forwards per rename table or '
       'is a no-op exactly when the payload type has no such method; clamp constants equal every documented Minimum/Maximum table; inspect / '
-      'into_difficulty are field-complete; setter, getter and inspect agree on one private slot. "Irrelevant setter leaves result untouched" beyond the '
+      'into_difficulty are field-complete; setter, getter and inspect agree on one private slot; calculators configure attribute builders through .difficulty(..) with no setting setter before it. "Irrelevant setter leaves result untouched" beyond the '
       'no-op arms is not decided.', 'doc comments as the documented bounds', 'DESIGN.md §5 C18')
 claim('C19', 'who-may-write, dominator/post-dominator pairing of sibling vector edits, must-pass-through to a time sort',
       'Decides the structural part: catch convert touches only mode/is_convert; taiko convert edits objects and sounds in lock-step (same multiset, same paths, '
-      'same positions); all four hit_objects rewriters sort by start_time before returning; effect points change only through add. Column bounds, '
+      'same positions); all four hit_objects rewriters sort by start_time before returning; effect points change only through add; the range helpers of the conversion RNG are min + U*(max-min). Column bounds, '
       'durations and key-count range are not decided.', 'exported MIR', 'DESIGN.md §5 C19')
 claim('C20', 'absence of shared mutable state (effect scan), auto-trait table from rustc\'s trait solver in both sync settings, signature scan for handle escape, compile_fail witnesses (thorough)',
       'Decides: no static mut / non-Freeze static / thread-local / lazy global / unsafe impl Send|Sync / thread use; value types are Send+Sync, osu/catch/mania '
